@@ -6,6 +6,7 @@ import threading
 from typing import ClassVar
 
 import equinox as eqx
+import numpy as np
 import jax
 from jax import numpy as jnp
 
@@ -185,3 +186,71 @@ class Recorder:
     def snapshot(self):
         with self._lock:
             return list(self.events)
+
+
+# ------------------------------------------------------------------ probe callback
+from lerax.callback import AbstractCallback, AbstractCallbackState, AbstractCallbackStepState  # noqa: E402
+
+
+class ProbeState(AbstractCallbackState):
+    iters: jax.Array
+    started: jax.Array
+
+
+class ProbeStepState(AbstractCallbackStepState):
+    steps: jax.Array
+    dones: jax.Array
+
+
+class ProbeCallback(AbstractCallback):
+    """Harness-defined observer whose *state* counts the calls it receives (pure, so it survives
+    jit/scan/vmap); at training end (top level of learn, outside scan/vmap/cond) it hands the counts,
+    the iteration counter and the final environment states to the recorder."""
+
+    recorder: Recorder = eqx.field(static=True)
+    tag: str = eqx.field(static=True)
+
+    def __init__(self, recorder, tag=""):
+        self.recorder = recorder
+        self.tag = tag
+
+    def reset(self, ctx, *, key):
+        return ProbeState(jnp.array(0, jnp.int32), jnp.array(0, jnp.int32))
+
+    def step_reset(self, ctx, *, key):
+        return ProbeStepState(jnp.array(0, jnp.int32), jnp.array(0, jnp.int32))
+
+    def on_step(self, ctx, *, key):
+        return ProbeStepState(ctx.state.steps + 1, ctx.state.dones + ctx.done.astype(jnp.int32))
+
+    def on_iteration(self, ctx, *, key):
+        rec = self.recorder
+
+        def emit(it, n):
+            rec.add(("iteration", self.tag, int(it), int(n)))
+
+        # top level of the scan body over iterations: one event per executed iteration, in order
+        jax.debug.callback(emit, ctx.iteration_count, ctx.state.iters + 1, ordered=True)
+        return ProbeState(ctx.state.iters + 1, ctx.state.started)
+
+    def on_training_start(self, ctx, *, key):
+        return ProbeState(ctx.state.iters, ctx.state.started + 1)
+
+    def on_training_end(self, ctx, *, key):
+        rec = self.recorder
+        st = ctx.locals.get("state")
+        env_state = st.step_state.env_state if st is not None else None
+        clock = getattr(env_state.unwrapped if env_state is not None else None, "t", jnp.array(-1))
+        buffer = getattr(st.step_state, "buffer", None) if st is not None else None
+        pos = buffer.position if buffer is not None else jnp.array(-1)
+
+        def emit(it, iters, started, steps, dones, clock, pos):
+            rec.add(("end", self.tag, int(it), int(iters), int(started), np.asarray(steps).tolist(),
+                     np.asarray(dones).tolist(), np.asarray(clock).tolist(), np.asarray(pos).tolist()))
+
+        jax.debug.callback(emit, ctx.iteration_count, ctx.state.iters, ctx.state.started, ctx.step_state.steps,
+                           ctx.step_state.dones, clock, pos, ordered=True)
+        return ctx.state
+
+    def continue_training(self, ctx, *, key):
+        return jnp.array(True)
